@@ -17,6 +17,28 @@ CHECKS = {
         design_ref='DESIGN.md section 3 (C08)',
         note='Trusts: TLC, Twisted task.Clock as the reactor, the in-memory transport; bounded N in the model; '
              'pending table is read from conn._pendingCalls.'),
+    'C04': dict(
+        technique='TLA+ spec Framing.tla (all partitions of the stream) model-checked by TLC; cut paths replayed into '
+                  'a real protocol object; long coalesced streams recorded and validated by TLC',
+        text='For concrete message streams (mixed byte order, CR LF planted in headers and bodies, handshake tail in the '
+             'same stream, client/server/already-authenticated roles) TLC explores every partition into reads and checks '
+             'that delivery is a function of the bytes received; every single cut, double cuts, byte-at-a-time and '
+             'whole-stream reads are executed on real BasicDBusProtocol/DBusClientConnection objects and compared step by '
+             'step; streams of up to 1200 (5000 thorough) messages in one read are recorded and validated against the spec.',
+        design_ref='DESIGN.md section 3 (C04)',
+        note='Trusts: TLC, the in-memory transport, a stub authenticator (except instance "real"); message content itself is '
+             'checked by C03.'),
+    'C20': dict(
+        technique='TLA+ specs Framing.tla (descriptor queue) and FdSend.tla model-checked by TLC; arrival/read '
+                  'interleavings replayed into a real receiver; real senders validated and chained into receivers',
+        text='TLC explores all interleavings of descriptor arrival and reads (stream-socket rule as enabling condition) '
+             'and checks attribution and queue contents; boundary double cuts x every legal arrival placement are '
+             'replayed on a real protocol object (messages of all four types carrying 0-3 descriptors, permuted indexes, '
+             'both byte orders, descriptors arriving during the handshake); real senders (callRemote, sendMessage) are '
+             'validated against FdSend.tla and their output is fed to a real receiver under random schedules.',
+        design_ref='DESIGN.md section 3 (C20)',
+        note='Trusts: TLC; descriptors are integers on in-memory transports (no kernel); the arrival rule of the property '
+             'is assumed, not tested.'),
 }
 
 NOT_YET = 'check not built yet (build in progress; see DESIGN.md section 6)'
